@@ -79,14 +79,16 @@ fn demand_tables_call(inp: &Value) -> Value {
     let h = u(&inp["H"]);
     let sn: Vec<u64> = (0..=h).map(|x| u64::from(rb.service_needed(d(x)))).collect();
     let lw: Vec<u64> = (0..=h).map(|x| u64::from(rb.least_wcet_in_interval(d(x)))).collect();
-    json!({"sn": sn, "lw": lw})
+    // the smallest job cost in the interval, read off job_cost_iter (0 = no job)
+    let mj: Vec<u64> = (0..=h).map(|x| rb.job_cost_iter(d(x)).map(u64::from).min().unwrap_or(0)).collect();
+    json!({"sn": sn, "lw": lw, "mj": mj})
 }
 
 /// {"dm": desc, "sn": [...], "lw": [...]}
 pub fn demand_rec(dm: &Value, h: u64, wd: u64) -> Option<Value> {
     let out = guarded(&json!({"dm": dm, "H": h}), wd, demand_tables_call);
     out.get("sn")?;
-    Some(json!({"dm": dm, "sn": out["sn"], "lw": out["lw"]}))
+    Some(json!({"dm": dm, "sn": out["sn"], "lw": out["lw"], "mj": out["mj"]}))
 }
 
 fn cb_tables_call(inp: &Value) -> Value {
